@@ -88,22 +88,23 @@ def usermaps(draw):
     n = draw(st.integers(1, 4))
     ident = 1
     for _ in range(n):
-        role = draw(st.sampled_from(["rom", "rom", "rommirror", "rommirror", "ram"]))
+        role = draw(st.sampled_from(["rom", "rom", "rommirror", "rommirror", "ram", "rammirror"]))
         length = draw(st.sampled_from([1, 1, 2, 3, 8, 16, 32, 48]))
         gap = draw(st.integers(0, 12))
         win = draw(st.sampled_from(["hi32", "hi32", "full64", "full64", "half64"]))
-        if role == "rommirror":
+        if role in ("rommirror", "rammirror"):
             need = 2 * length + gap
         else:
             need = length
         if cursor + need > 256:
             break
-        if role == "rommirror":
+        if role in ("rommirror", "rammirror"):
             a = (cursor, cursor + length - 1)
             b = (cursor + length + gap, cursor + 2 * length + gap - 1)
             if draw(st.booleans()):
                 a, b = b, a
-            specs.append({"id": ident, "first": a[0], "last": a[1], "win": win, "ram": False, "mirror": list(b)})
+            # a mirrored RAM range (battery RAM seen at two bank ranges): both halves are RAM
+            specs.append({"id": ident, "first": a[0], "last": a[1], "win": win if role == "rommirror" else "full64", "ram": role == "rammirror", "mirror": list(b)})
             cursor += need
         elif role == "rom":
             specs.append({"id": ident, "first": cursor, "last": cursor + length - 1, "win": win, "ram": False, "mirror": None})
